@@ -9,7 +9,7 @@ TIE = ["Nsq.Tie.Gate"]
 PROPS = ["Nsq.Props.C11"]
 
 DENY_CODES = ("E_AUTH_FIRST", "E_AUTH_FAILED", "E_UNAUTHORIZED", "E_AUTH_DISABLED")
-OPS = ("cfg", "http", "conn", "c", "cx", "x")
+OPS = ("cfg", "http", "https", "conn", "c", "cx", "x")
 
 
 def broker_of(line):
@@ -197,6 +197,8 @@ def run(ctx):
                 print("%s\n   impl:  %s\n   model: %s%s" % (o, st.impl[i], m, "" if m == st.impl[i] else "   <-- differ"))
             for key, idx, detail in st.fails:
                 print("ORACLE-FAIL %s | %s" % (key, detail))
+            for o in st.ops:
+                ctx.count_case("replay:" + o, nontrivial=not (o.startswith("conn ") or o.startswith("x ")))
             corr_broken += report(ctx, binp, env, st, "replay")
         else:
             # 0: the corpus of past failures (minimised replays of mutation trials) runs first
@@ -209,7 +211,7 @@ def run(ctx):
                     ctx.count_case("corpus:" + o, nontrivial=not (o.startswith("conn ") or o.startswith("x ")))
                 corr_broken += report(ctx, binp, env, st, "corpus")
             runs = [("^TestVerifGateAllowed$", "gateia", ctx.budget(20000, 200000)),
-                    ("^TestVerifGateCorr$", "gate", ctx.budget(5000, 80000))]
+                    ("^TestVerifGateCorr$", "gate", ctx.budget(15000, 120000))]
             for test, stream, n in runs:
                 st = Stream(ctx, binp, test, stream, dict(env, VERIF_N=n))
                 if st.hist:
